@@ -344,4 +344,44 @@ mod verif_kani_date {
         let want = if (d.ordinal() as i64) < first_s { 0 } else { (d.ordinal() as i64 - first_s) / 7 + 1 };
         assert!(d.weeks_from(s) as i64 == want, "weeks_from counts weeks starting on the given weekday");
     }
+
+    // fns: NaiveDate::from_ymd, NaiveDate::from_yo, NaiveDate::from_isoywd, NaiveDate::succ, NaiveDate::pred (deprecated panicking forms: the value of the checked form whenever that exists)
+    #[kani::proof]
+    #[allow(deprecated)]
+    fn vk_date_deprecated_ctors() {
+        let which: u8 = kani::any();
+        kani::assume(which < 5);
+        let (y, a, b): (i32, u32, u32) = (kani::any(), kani::any(), kani::any());
+        match which {
+            0 => if let Some(d) = NaiveDate::from_ymd_opt(y, a, b) { assert!(NaiveDate::from_ymd(y, a, b) == d, "from_ymd = from_ymd_opt"); },
+            1 => if let Some(d) = NaiveDate::from_yo_opt(y, a) { assert!(NaiveDate::from_yo(y, a) == d, "from_yo = from_yo_opt"); },
+            2 => { let w = any_wd(); if let Some(d) = NaiveDate::from_isoywd_opt(y, a, w) { assert!(NaiveDate::from_isoywd(y, a, w) == d, "from_isoywd = from_isoywd_opt"); } },
+            3 => { let d = any_date(); if let Some(n) = d.succ_opt() { assert!(d.succ() == n, "succ = succ_opt"); } },
+            _ => { let d = any_date(); if let Some(n) = d.pred_opt() { assert!(d.pred() == n, "pred = pred_opt"); } },
+        }
+    }
+
+    // ---- NaiveWeek::checked_days / days over the contracts of the two ends (Verus unit week) -------------------------------------------
+    // one recorder static that begins with a magic word (Kani 0.68 aliases a `static mut` with any constant of equal bytes)
+    struct WkRec { magic: u64, first: Option<NaiveDate>, last: Option<NaiveDate> }
+    static mut WKREC: WkRec = WkRec { magic: 0xC0DE_5EED_D15C_000A, first: None, last: None };
+    fn st_first_day(_w: &crate::naive::NaiveWeek) -> Option<NaiveDate> { unsafe { WKREC.first } }
+    fn st_last_day(_w: &crate::naive::NaiveWeek) -> Option<NaiveDate> { unsafe { WKREC.last } }
+
+    // fns: NaiveWeek::checked_days, NaiveWeek::days (the inclusive range between the two ends, None exactly when an end is out of range)
+    // assumes: NaiveWeek::checked_first_day, NaiveWeek::checked_last_day
+    #[kani::proof]
+    #[kani::stub(crate::naive::NaiveWeek::checked_first_day, st_first_day)]
+    #[kani::stub(crate::naive::NaiveWeek::checked_last_day, st_last_day)]
+    fn vk_week_checked_days() {
+        let f = if kani::any() { Some(any_date()) } else { None };
+        let l = if kani::any() { Some(any_date()) } else { None };
+        unsafe { WKREC.first = f; WKREC.last = l; }
+        let w = any_date().week(any_wd());
+        kani::cover!(f.is_none()); kani::cover!(f.is_some() && l.is_some());
+        match w.checked_days() {
+            Some(r) => { assert!(Some(*r.start()) == f && Some(*r.end()) == l, "from the first to the last day of the week, inclusive"); let r2 = w.days(); assert!(r2.start() == r.start() && r2.end() == r.end(), "days() = checked_days()"); }
+            None => assert!(f.is_none() || l.is_none(), "None only when an end of the week is out of range"),
+        }
+    }
 }
